@@ -555,7 +555,7 @@ func TestC15(t *testing.T) {
 		})
 	}
 	// masked operands in the elementwise operation matrix
-	for _, op := range []string{"Add", "Sub", "Mul", "Lt", "ElEq", "Neg", "Square"} {
+	for _, op := range []string{"Add", "Sub", "Mul", "Div", "Lt", "ElEq", "Neg", "Square"} {
 		for _, d := range []DT{dtInt32, dtF64, dtUint8, dtF32} {
 			op, d := op, d
 			cell(t, "C15", "EW", "masked-op/"+op+"/"+d.Name, nCases(30, 600), func(rt *rapid.T) Case {
@@ -578,6 +578,18 @@ func TestC15(t *testing.T) {
 					c.B.Mask = make([]bool, n)
 					for i := range c.B.Mask {
 						c.B.Mask[i] = rapid.IntRange(0, 2).Draw(rt, "mb") == 0
+						// zero divisors are mostly hidden under the mask: they are not operated on, so no error is due
+						if op == "Div" && d.IsInt() && eqVal(decode(d, c.B.Codes[i]), conv(d, 0)) && rapid.IntRange(0, 3).Draw(rt, "hide") > 0 {
+							c.B.Mask[i] = true
+						}
+					}
+				}
+				if op == "Add" || op == "Sub" || op == "Mul" || op == "Div" {
+					// the destination modes too (compact destinations)
+					if m := rapid.SampledFrom([]string{"safe", "safe", "reuse", "incr"}).Draw(rt, "mmode"); m != "safe" {
+						c = withMode(rt, c, m, d)
+						c.Dst.L = Layout{Root: "rm"}
+						c.Pre = ""
 					}
 				}
 				return c
